@@ -1,11 +1,11 @@
 INIT Init
 NEXT Next
-CONSTANTS Alpha = {48,49,57,46,101,45,120}
+CONSTANTS Alpha = {48,49,50,57,46,101,45,120}
  LMax = 5
  K = 2
  UBits = 8
  MaxFracP = 2
  Variant = "ok"
  EmitPaths = FALSE
-INVARIANTS Refines MemSafe Terminates EmitPath
+INVARIANTS MacroAgrees Refines MemSafe Terminates EmitPath
 CHECK_DEADLOCK FALSE
